@@ -10,6 +10,7 @@ import (
 	"crypto/x509/pkix"
 	"encoding/json"
 	"fmt"
+	"math/big"
 	mrand "math/rand"
 	"strings"
 	"sync"
@@ -497,7 +498,11 @@ func c10(x *mon.Ctx) {
 
 	// 2. structural message mutations, with and without collateral scripted
 	r := x.Rand("msg")
-	w := world.Honest(r, world.HonestOpts{Shape: world.QuoteShape{AuthLen: 32}})
+	pc := world.RandPlatform(r)
+	pc.TeeTcb[1] = 3 // a TDX module version: the module-identity branch and its documents are part of the hostile surface
+	w := world.Honest(r, world.HonestOpts{Shape: world.QuoteShape{AuthLen: 32}, Platform: pc})
+	w.Tcb.Mods = append([]world.ModIdent{{ID: "TDX_01", Levels: []world.IsvLevel{{Isv: 2, Status: "UpToDate"}, {Isv: 0, Status: "OutOfDate"}}}}, w.Tcb.Mods...)
+	w.Resign()
 	cs := w.Case(world.LCrl, "c10", "")
 	valid := mon.MessageFor("built", cs.Quote)
 	muts := structuralMutations(valid)
@@ -641,6 +646,34 @@ func c10(x *mon.Ctx) {
 				c.Resp[d.url] = world.Resp{H: good.H, B: world.SignedBody(d.member, d.raw[:tok[0]]+v+d.raw[tok[1]:], w.PKI.TcbSign.Key)}
 				rcases = append(rcases, c)
 			}
+		}
+	}
+	// 3c. ONE options value over a sequence of worlds whose CRLs do and do not carry the optional extensions (cRLNumber,
+	//     authorityKeyIdentifier), revoke and do not revoke: whatever the library keeps about earlier CRLs, no call crashes
+	{
+		sh := &verify.Options{}
+		this, next := world.Epoch.Add(-world.Day), world.Epoch.Add(30*world.Day)
+		for step, kind := range []string{"numbered", "bare", "numbered", "bare-root", "bare-pck", "bare-revoking", "numbered", "bare", "empty-body", "bare"} {
+			w2 := w.Clone()
+			switch kind {
+			case "bare":
+				w2.RootCRL, w2.PckCRL = world.MkCRLBare(w.PKI.Root, this, next, nil), world.MkCRLBare(w.PKI.Inter, this, next, nil)
+			case "bare-root":
+				w2.RootCRL = world.MkCRLBare(w.PKI.Root, this, next, nil)
+			case "bare-pck":
+				w2.PckCRL = world.MkCRLBare(w.PKI.Inter, this, next, nil)
+			case "bare-revoking":
+				w2.PckCRL = world.MkCRLBare(w.PKI.Inter, this, next, []*big.Int{w.PKI.Leaf.Cert.SerialNumber})
+			case "empty-body":
+				w2.PckCRL = []byte{}
+			}
+			c := w2.Case(world.LCrl, "crl-extension-history", fmt.Sprintf("step%d/%s", step, kind))
+			x.Crumb(step, "verify", c)
+			out := mon.RunVerifyShared(c, sh)
+			if out.Panic != "" {
+				x.Violation(c.Class, c.Param, "verify through an options value that saw other CRLs before panics: "+out.Panic+"\n"+out.Stack, "verify", c)
+			}
+			x.Note(c.Class, c.Param, out.Accepted, out.Panic != "", out.Panic == "")
 		}
 	}
 	// odd certificates in the quote's own chain slots
